@@ -6,6 +6,7 @@ CONSTANTS
   MaxUid = 1
   MaxCode = 1
   NFlagSets = 2
+  SyncLit = FALSE
   Kinds = {"SELECT", "FETCH", "STORE", "UIDFETCH"}
   Greetings = {"PREAUTH"}
 INIT Init
